@@ -54,6 +54,9 @@ def model_dict(spec: dict) -> dict:
         p["noise_std"] = _NOISE[v][:dim]
     elif noise == "gaussian-scalar":
         p["noise_std"] = [_NOISE[v][0]]
+    if "noise_level" in spec and "noise_std" in p:
+        # an explicit (e.g. very small) noise level, the same for every feature
+        p["noise_std"] = [float(spec["noise_level"])] * len(p["noise_std"])
     d = {
         "leaspy_version": LEASPY_VERSION,
         "name": kind,
